@@ -1,1 +1,37 @@
-//! Hooks for property C24 (empty unless needed).
+//! Hooks for property C24: runs the default path selector on synthetic path data.
+//!
+//! Uses the (widened from `cfg(test)`) `for_test` constructors of the selection context.
+use std::time::Duration;
+
+pub use crate::socket::transports::{Addr, FourTuple};
+use crate::socket::{
+    biased_rtt_path_selector::BiasedRttPathSelector,
+    remote_map::{PathSelectionContext, PathSelectionData, PathSelector},
+};
+
+/// Runs `BiasedRttPathSelector::default().select(..)`.
+///
+/// `paths`: one entry per (connection, path): the network path and its RTT, `None` when the
+/// path statistics cannot be read. Returns the selected path, `None` for the empty selection
+/// ("keep the current path").
+pub fn select_default(
+    current: Option<&FourTuple>,
+    paths: &[(FourTuple, Option<Duration>)],
+) -> Option<FourTuple> {
+    let data: Vec<PathSelectionData<'_>> = paths
+        .iter()
+        .map(|(path, rtt)| {
+            let stats = rtt.map(|rtt| {
+                let mut stats = noq::PathStats::default();
+                stats.rtt = rtt;
+                stats
+            });
+            PathSelectionData::for_test(path, stats)
+        })
+        .collect();
+    let ctx = PathSelectionContext::for_test(current, data);
+    BiasedRttPathSelector::default()
+        .select(&ctx)
+        .selected()
+        .cloned()
+}
